@@ -64,12 +64,17 @@ def parseProgram {Tree : Type} (X : Ext Tree) (src : Name) : Except Exc (List La
       | .error e => if e.caught then .ok [astLabel e.name src] else .error e
       | .ok _ => X.features src t
 
-/-- `Cleanup("full").run = Cleanup.safe_full_cleaning` (fix c7d362e): ANY exception of the cleaning
-falls back to the uncleaned text, so that the parser reports the error. -/
+/-- `Cleanup("full").run = Cleanup.safe_full_cleaning` (fixes c7d362e and F48): the text is first parsed;
+a text that is NOT a valid program is left as it is (cleaning must not repair it: the parser will report
+the error under both strategies), and ANY exception of the cleaning of a valid one falls back to the
+uncleaned text as well. (For `--cleanup none`, `clean` is the identity and both branches give the raw text.) -/
 def safeClean {Tree : Type} (X : Ext Tree) (raw : Name) : Name :=
-  match X.clean raw with
-  | .ok s => s
+  match X.parse raw with
   | .error _ => raw
+  | .ok _ =>
+    match X.clean raw with
+    | .ok s => s
+    | .error _ => raw
 
 /-- `list_programs`: every file is cleaned (never raises any more) then turned into a `Program`.
 Input: (relative path, raw text) in sorted order. -/
